@@ -7,6 +7,7 @@ import (
 	"encoding/json"
 	"fmt"
 	"math"
+	"regexp"
 	"strings"
 
 	mxj "github.com/clbanning/mxj/v2"
@@ -544,8 +545,21 @@ func c04Oracle(run *Run, c seqCase, dec, comp, ind, beau Outcome) {
 			run.violation(Violation{Key: "formatted-redecode-differs", What: "NewMapFormattedXmlSeq(indented output) differs from NewMapFormattedXmlSeq(compact output)",
 				Input: c, Got: mi.text(), Want: mc.text()})
 		}
+		// ... and NewMapFormattedXmlSeq(b, cast) = NewMapXmlSeq(b, cast) on bytes the formatting pattern leaves alone, with the
+		// cast flag given explicitly and not at all (the observed side of C04_new_map_formatted_xml_seq_code)
+		if !c04Formatting.Match(bc) {
+			for _, cast := range []bool{false, true} {
+				f, p := seqDecode(c.Opts, bc, cast, true), seqDecode(c.Opts, bc, cast, false)
+				if f.text() != p.text() {
+					run.violation(Violation{Key: "formatted-differs-from-plain", What: fmt.Sprintf("NewMapFormattedXmlSeq(b, %v) differs from NewMapXmlSeq(b, %v) on bytes without inter-element whitespace", cast, cast),
+						Input: c, Got: f.text(), Want: p.text()})
+				}
+			}
+		}
 	}
 }
+
+var c04Formatting = regexp.MustCompile(`>[\n\t\r ]+<`)
 
 // ---------------------------------------------------------------- MapSeq mutations (encoder correspondence outside the decoder's image)
 
